@@ -569,9 +569,32 @@ def run_real(real, pred, orders, slices, chain_query):
             for sl in slices:
                 b = b[sl[0]:sl[1]] if len(sl) == 2 else b[sl[0]:sl[1]:sl[2]]
             res = [f.id for f in (b if isinstance(b, list) else b.fits)]
-        return {"full": full, "result": res}
+        else:
+            b = a
+        out = {"full": full, "result": res}
+        if not isinstance(b, list):
+            out["views"] = aggregator_views(b)
+        return out
     except Exception as e:  # the kind of exception is the observable
         return {"err": f"{type(e).__name__}: {str(e)[:200]}"}
+
+
+def aggregator_views(b):
+    """the other ways the API hands out the fits of an aggregator: len(), iteration, map(), comparison with a list"""
+    return {"len": len(b), "iter": [f.id for f in b], "map": list(b.map(lambda f: f.id)), "eq_list": bool(b == list(b.fits))}
+
+
+def check_views(ctx, case, impl):
+    """`len(agg)`, `for fit in agg`, `agg.map(f)`, `agg == [fits]` present exactly the fits of `.fits`, each once, in
+    the same order (the property through the rest of the aggregator's API)"""
+    v = impl.get("views")
+    if v is None:
+        return
+    res = impl["result"]
+    ctx.hit("aggregator-views-compared")
+    if v["len"] != len(res) or v["iter"] != res or v["map"] != res or not v["eq_list"]:
+        ctx.fail("C10-aggregator-views", "len() / iteration / map() / == of an aggregator do not present exactly its fits",
+                 case, {"fits": res, "views": v})
 
 
 # ---------------------------------------------------------------------------------------------
@@ -903,6 +926,7 @@ def one_case(ctx, dbd, real, pred, orders, slices, chain_query=False, label="gen
         return
 
     check_sql(ctx, case, real, pred, ans, cfg)
+    check_views(ctx, case, impl)
 
     # ---- oracle (independent of the model): the property sentence on the real outputs
     problems, want_ids = judge(dbd, real, pred, orders, slices, impl)
